@@ -63,6 +63,8 @@ func main() {
 		opPP(r, *n, *tier)
 	case "html":
 		opHTML(r, *n, *tier)
+	case "guess":
+		opGuess(r, *n, *tier, *seed)
 	case "replay":
 		opReplay()
 	default:
